@@ -17,7 +17,7 @@ pub fn prop() -> Prop {
     Prop {
         id: "C17",
         level: "model_checking",
-        rule: "sessions on a REAL retained (Compiler, VM) pair, every line fed through the real parse -> compile_ast -> run: (1) all sessions of <= 3 lines over a 52-line alphabet (declarations, re-declarations, assignments, expressions over earlier globals, a loop, self-contained function definitions with calls, a block with a local, heap-valued lines, three parse failures, compile failures at every statement position, run-time failures after k completed assignments and inside a nested call); (2) crash points: for every session of <= 2 lines and every line of it, the injected failure after k instructions for EVERY k up to the line's length, followed by probe lines reading every global; (3) breadth-first search to depth d over a 14-line core alphabet with states merged on the fingerprint of compiler + VM + model environment. (4) long sessions, deviation-bounded: four ordinary ten-line sessions (declarations, re-declarations, blocks, loops, functions, heap values, output), every crash point of every one of their lines with the rest of the session as continuation, and every insertion of ONE or TWO lines from a 16-line deviation set (parse / compile / run-time failures at several statement positions, in blocks, in functions, after output and after completed effects, misplaced stop, re-declaration, empty line) at every position: sessions of up to 12 lines. Oracle: a session model on the reference interpreter (a line that fails before running contributes nothing, a line that fails while running contributes exactly the effects it completed), equality of every line's value/output/error kind; for an injected failure the state afterwards must equal the model after SOME prefix of the line's effects; sessions without failing lines must also agree with eval of the concatenated text. The shadow heap stays on across lines",
+        rule: "sessions on a REAL retained (Compiler, VM) pair, every line fed through the real parse -> compile_ast -> run: (1) all sessions of <= 3 lines over a 52-line alphabet (declarations, re-declarations, assignments, expressions over earlier globals, a loop, self-contained function definitions with calls, a block with a local, heap-valued lines, three parse failures, compile failures at every statement position, run-time failures after k completed assignments and inside a nested call); (2) crash points: for every session of <= 2 lines and every line of it, the injected failure after k instructions for EVERY k up to the line's length, followed by probe lines reading every global; (3) breadth-first search to depth d over a 14-line core alphabet with states merged on the fingerprint of compiler + VM + model environment. (5) session-length ladder: N lines each adding a global and new constants (integers, floats and strings, or a function per line), N around every power of two up to 1025, three failing lines in the middle, earlier and newest globals read back along the way. (4) long sessions, deviation-bounded: four ordinary ten-line sessions (declarations, re-declarations, blocks, loops, functions, heap values, output), every crash point of every one of their lines with the rest of the session as continuation, and every insertion of ONE or TWO lines from a 16-line deviation set (parse / compile / run-time failures at several statement positions, in blocks, in functions, after output and after completed effects, misplaced stop, re-declaration, empty line) at every position: sessions of up to 12 lines. Oracle: a session model on the reference interpreter (a line that fails before running contributes nothing, a line that fails while running contributes exactly the effects it completed), equality of every line's value/output/error kind; for an injected failure the state afterwards must equal the model after SOME prefix of the line's effects; sessions without failing lines must also agree with eval of the concatenated text. The shadow heap stays on across lines",
         assumptions: &[
             "calls to a function defined by an EARLIER line are outside the property (upstream limitation) and not in the alphabet",
             "results handed back by run() are not released by the harness in session mode (they may alias globals or constants)",
@@ -543,8 +543,48 @@ fn long_sessions(sh: &mut Shard) {
     }
 }
 
+/// Session-length ladder: N lines each bringing a new global, a new integer, float and string constant
+/// (the retained compiler's tables keep growing), for N around every power of two; a failing line of each
+/// kind in the middle; every 64th line and the last ones read the first, the middle and the newest global back.
+fn session_ladder(sh: &mut Shard) {
+    let tier = sh.cfg.tier;
+    let kmax = if tier == Tier::Quick { 10 } else { 12 };
+    let mut sizes: Vec<usize> = vec![3, 5, 6, 10, 100, 300];
+    for k in 2..=kmax {
+        let n = 1usize << k;
+        sizes.extend([n - 1, n, n + 1]);
+    }
+    sizes.sort();
+    sizes.dedup();
+    for n in sizes {
+        for flavour in 0..3 {
+            let mut lines: Vec<String> = Vec::new();
+            for i in 0..n {
+                lines.push(match flavour {
+                    0 => format!("stel v{i} = {}", 1000 + i),
+                    1 => format!("stel v{i} = [{i}.5, \"s{i}\"]"),
+                    _ => format!("functie f{i}(x) {{ x + {i} }} stel v{i} = f{i}({i})"),
+                });
+                if i == n / 2 {
+                    lines.push("stel kapot = 1; zz".to_string());
+                    lines.push("(1 +".to_string());
+                    lines.push(format!("v{i} = v{i}; 1 + ja"));
+                }
+                if i % 64 == 63 || i + 2 >= n {
+                    lines.push(format!("[v0, v{}, v{i}]", i / 2));
+                }
+            }
+            session_case(sh, "session-ladder", &lines);
+            if !sh.running() {
+                return;
+            }
+        }
+    }
+}
+
 fn run(sh: &mut Shard) {
     let tier = sh.cfg.tier;
+    session_ladder(sh);
     long_sessions(sh);
     if !sh.running() {
         return;
